@@ -252,6 +252,54 @@ Definition recv_all (r : role) (my_id target : id) (p : presented) (chunks : lis
 
 End Identity.
 
+(* ------------------------------------------------------------------ Tub.getReference: which request gets which answer
+   _getReference(FURL f) on a running Tub asks Tub.brokers' entry for f's tub id (getBrokerForTubRef(sturdy.getTubRef()))
+   for the object named f's name (getYourReferenceByName(sturdy.name)).  Requests made before startService are queued as
+   (Deferred, SturdyRef) and resumed by startService; how the loop variables are bound when the resumption runs (in a
+   later turn) is read from the source (resume_sturdy_binding in gen/IdentityGen.v). *)
+Record furl := { f_tub : list Z; f_name : list Z }.
+Record answer := { a_key : list Z;      (* key of the Tub.brokers entry the reference is obtained over *)
+                   a_name : list Z }.   (* name the peer is asked for *)
+
+Definition get_reference_now (f : furl) : answer := {| a_key := f_tub f; a_name := f_name f |}.
+
+Inductive gr_event := GrRequest (f : furl) | GrStart.
+
+Record gr_state := { g_started : bool;
+                     g_next : nat;                          (* number of the next request *)
+                     g_log : list (nat * furl);             (* every request made: its number and its FURL *)
+                     g_pending : list (nat * furl);         (* _pending_getReferences *)
+                     g_delivered : list (nat * answer) }.   (* request number -> what its Deferred is fired with *)
+
+Definition gr_init : gr_state :=
+  {| g_started := false; g_next := O; g_log := []; g_pending := []; g_delivered := [] |}.
+
+Fixpoint last_furl (q : list (nat * furl)) : option furl :=
+  match q with [] => None | [x] => Some (snd x) | _ :: r => last_furl r end.
+
+(* the SturdyRef each queued request is resumed with *)
+Definition resumed (q : list (nat * furl)) : list (nat * furl) :=
+  match resume_sturdy_binding with
+  | BoundPerIteration => q
+  | BoundLate => match last_furl q with Some fl => map (fun x => (fst x, fl)) q | None => [] end
+  end.
+
+Definition gr_step (st : gr_state) (e : gr_event) : gr_state :=
+  match e with
+  | GrRequest f =>
+      let r := g_next st in
+      if g_started st
+      then {| g_started := true; g_next := S r; g_log := (r, f) :: g_log st; g_pending := g_pending st;
+              g_delivered := (r, get_reference_now f) :: g_delivered st |}
+      else {| g_started := false; g_next := S r; g_log := (r, f) :: g_log st; g_pending := g_pending st ++ [(r, f)];
+              g_delivered := g_delivered st |}
+  | GrStart =>
+      {| g_started := true; g_next := g_next st; g_log := g_log st; g_pending := [];
+         g_delivered := rev (map (fun x => (fst x, get_reference_now (snd x))) (resumed (g_pending st))) ++ g_delivered st |}
+  end.
+
+Definition gr_run (evs : list gr_event) : gr_state := fold_left gr_step evs gr_init.
+
 Arguments cl_id {cert} s.
 Arguments dialled {cert} s.
 Arguments requested {cert} s.
